@@ -19,7 +19,7 @@ Case(fam, p, doc, sps) ==
 EmitCase(c) == PrintT(ToJson(c))
 
 \* ---- small vocabulary used by several enumerators
-ka == <<97>>   kb == <<98>>   kc == <<99>>
+ka == <<97>>   kb == <<98>>   kc == <<99>>   kd == <<100>>   ke == <<101>>
 N1 == Num(1000)  N2 == Num(2000)  N3 == Num(3000)
 Sa == Str(<<97>>)  Sb == Str(<<98>>)
 O0 == Obj(<<>>)   A0 == Arr(<<>>)
